@@ -163,6 +163,31 @@ theorem coordinated_alteration_completes (H : Nat → Nat → C) (n1 n1' : Nat) 
       fun _ => ⟨H n1' n2⟩⟩).completes = true := by
   rw [handshake_completes_iff]; simp
 
+/-- The initiator's side (`runHandshakeAsInitiator`) finishes iff act 1 carries the responder's
+    protocol and act 2 carries the initiator's protocol and the challenge derived from the
+    initiator's nonce and the delivered `nonce2`. -/
+theorem initiator_done_iff (H : Nat → Nat → C) (n1 : Nat) (p1 : String) (n2 : Nat) (p2 : String)
+    (net : Net C) :
+    (run H n1 p1 n2 p2 net).initiatorDone = expectedInitiatorDone H n1 p1 n2 p2 net := by
+  simp only [run, answer, initiatorNext, finalize, expectedInitiatorDone, ne_eq, ite_not]
+  generalize net.f1 ⟨n1, p1⟩ = m1
+  by_cases h1 : m1.proto = p2
+  · simp only [h1, if_true, decide_true, Bool.true_and]
+    generalize net.f2 ⟨n2, H m1.nonce n2, p2⟩ = m2
+    by_cases h2 : m2.proto = p1
+    · simp only [h2, if_true, decide_true, Bool.true_and]
+      by_cases h3 : H n1 m2.nonce = m2.challenge
+      · have h3' : m2.challenge = H n1 m2.nonce := h3.symm
+        simp only [h3, if_true]
+        generalize net.f3 ⟨m2.challenge⟩ = m3
+        by_cases h4 : H m1.nonce n2 = m3.challenge
+        · simp [h4, h3', Outcome.initiatorDone]
+        · simp [h4, h3', Outcome.initiatorDone]
+      · have h3' : ¬ m2.challenge = H n1 m2.nonce := fun h => h3 h.symm
+        simp [h3, h3', Outcome.initiatorDone]
+    · simp [h2, Outcome.initiatorDone]
+  · simp [h1, Outcome.initiatorDone]
+
 /-! ## Wire level (acts that do not unmarshal) -/
 
 /-- When every delivered act unmarshals, the wire-level run is the message-level run: all theorems
